@@ -228,3 +228,14 @@ PLANS["C08"] = dict(
     explanation="BOUNDED: motif_sizes = ascending set of occurring clique sizes; one column per occurring size; per-vertex counts; jdd = empirical distribution of the per-vertex tuples; input unchanged.",
     clauses={"one column per occurring size, reported ascending": "bounded", "per-vertex counts of cover cliques of each size": "bounded", "empirical distribution of the tuples": "bounded"},
     not_decided=["covers beyond the bound"])
+
+PLANS["C14"] = dict(
+    level="other", bounded="c14",
+    modules=[dict(name="average")],
+    technique="deductive verification of the real get_average_joint_degrees (nested loops over a dict's key list against a weighted-sum spec function) by VCs from the AST in z3/cvc5; all other identities of the algebra by exact-Fraction run-time postconditions (labelled stand-in)",
+    level_text="Proved for all distributions: the mean joint degree is the P-weighted mean (component-wise weighted sum over the key enumeration). The excess-distribution formula, its normalisation, the inversion (for arbitrary topology names and dict orders), row sums of mixing matrices, key halves and the network histogram are decided by the bounded stand-in with exact Fractions; hence `other`.",
+    level_note="Trusted: vf VC generator, z3/cvc5; assumed: list(d.keys()) enumerates the keys once; A-REAL. Bound: supports of <= 5 keys over 1-4 topologies with degrees <= 3, names and dict orders random; clean annotated networks with <= 7 (10) vertices.",
+    explanation="PROVED: AverageJointDegreeFromJDD.get_average_joint_degrees weighted_mean / len / enumeration / input_unchanged (22 obligations). BOUNDED: q_i(k - e_i) = k_i P(k)/<k_i> with mass 1; inversion returns P restricted to non-zero joint degrees; row sums = excess distribution (also against the network's empirical P); excess keys = halves of matrix keys; network histogram; list/dict conversions aligned.",
+    clauses={"excess distribution formula, sums to 1": "bounded", "inversion returns P (non-zero joint degrees)": "bounded (arbitrary names, dict orders)", "row sums of a mixing matrix = excess distribution; network-derived agrees with the empirical P": "bounded",
+             "mean joint degree is the P-weighted mean": "proved"},
+    not_decided=["distributions beyond the bound for the bounded clauses"])
